@@ -50,6 +50,70 @@ def validatePublic (candidate : Nat) : Bool := decide (candidate > 1) && decide 
 def sharedScalar (privateKey remotePublic : Nat) : Nat :=
   modexp (remotePublic % C12.kPrime) privateKey C12.kPrime
 
+/-! ### identity scalar from the configured seed (`generate_identity_scalar`, Node.cpp; `derive_public_identity_from_seed`, main.cpp)
+
+`std::mt19937 g; g.seed(seed); std::uniform_int_distribution<uint32_t>(2, kPrime − 2)(g)`.
+ISO C++ [rand.eng.mers] `mt19937` (w=32, n=624, m=397, r=31, a=0x9908B0DF, u=11, d=0xFFFFFFFF, s=7,
+b=0x9D2C5680, t=15, c=0xEFC60000, l=18, f=1812433253); libstdc++'s distribution for a 32-bit engine and a
+smaller range is Lemire's multiply-shift with rejection (`uniform_int_distribution::_S_nd`). -/
+
+structure Mt32 where
+  mt : Array UInt32
+  idx : Nat
+deriving Inhabited
+
+namespace Mt32
+
+def seed (s : Nat) : Mt32 := Id.run do
+  let mut a : Array UInt32 := Array.replicate 624 0
+  let mut prev : UInt32 := UInt32.ofNat s
+  a := a.set! 0 prev
+  for i in [1:624] do
+    prev := (1812433253 : UInt32) * (prev ^^^ (prev >>> 30)) + UInt32.ofNat i
+    a := a.set! i prev
+  return ⟨a, 624⟩
+
+def twist (a : Array UInt32) : Array UInt32 := Id.run do
+  let mut a := a
+  for i in [0:624] do
+    let x := (a[i]! &&& 0x80000000) ||| (a[(i + 1) % 624]! &&& 0x7FFFFFFF)
+    let xA := if x &&& 1 != 0 then (x >>> 1) ^^^ 0x9908B0DF else x >>> 1
+    a := a.set! i (a[(i + 397) % 624]! ^^^ xA)
+  return a
+
+def next (g : Mt32) : Nat × Mt32 :=
+  let g := if g.idx ≥ 624 then { mt := twist g.mt, idx := 0 } else g
+  let y := g.mt[g.idx]!
+  let y := y ^^^ (y >>> 11)
+  let y := y ^^^ ((y <<< 7) &&& 0x9D2C5680)
+  let y := y ^^^ ((y <<< 15) &&& 0xEFC60000)
+  let y := y ^^^ (y >>> 18)
+  (y.toNat, { g with idx := g.idx + 1 })
+
+end Mt32
+
+/-- libstdc++ `_S_nd<uint64_t>(urng, range)`: `product = urng() * range; low = uint32(product);
+    if (low < range) { threshold = -range % range; while (low < threshold) redraw; } return product >> 32`
+    (`fuel` bounds the rejection loop, which repeats with probability < 2^-31 here) -/
+def lemire {σ : Type} (range : Nat) (next : σ → Nat × σ) : Nat → σ → Nat
+  | 0, s => ((next s).1 * range) >>> 32
+  | fuel + 1, s =>
+    let (x, s') := next s
+    let product := x * range
+    let low := product % two32
+    if low < range ∧ low < (two32 - range) % range then lemire range next fuel s' else product >>> 32
+
+/-- `uniform_int_distribution<uint32_t>(2, kPrime − 2)` over any 32-bit engine -/
+def drawScalar {σ : Type} (next : σ → Nat × σ) (s : σ) : Nat :=
+  lemire (C12.kPrime - 3) next 64 s + 2
+
+/-- the private scalar of a node configured with `identity_seed = seed`
+    (the seed is used whenever one is configured — `has_value()`, including seed 0) -/
+def scalarOfSeed (seed : Nat) : Nat := drawScalar Mt32.next (Mt32.seed seed)
+
+/-- its public identity, which `main.cpp` recomputes from the seed alone for bootstrap entries -/
+def publicOfSeed (seed : Nat) : Nat := computePublic (scalarOfSeed seed)
+
 section
 variable (sha : List UInt8 → List UInt8) (hmac : List UInt8 → List UInt8 → List UInt8)
 
